@@ -11,9 +11,11 @@ theorem C13_number_gates :
     [swSetFloat, swSetInt, swSetUInt, swSetStringBytes].all
       (fun sw => match sw with | [[l]] => Facts.sameMembers l Facts.scalarNumStr | _ => false) = true := Facts.set_number_gates
 theorem C13_bool_gate : swSetBool = [[[cTagBoolTrue, cTagBoolFalse, cTagNull]]] := Facts.set_bool_gate
-/-- SetNull accepts bool/null, string and numbers, objects and arrays — and neither roots nor end tags. -/
-theorem C13_null_gates :
+/-- SetNull accepts bool/null, string and numbers, objects and arrays — and, beyond its documentation, root
+    entries (known finding D10: kept because upstream's test TestIter_SetNull_ObjArr/3 expects it). End tags and
+    everything else are refused. -/
+theorem C13_null_gates_partial :
     swSetNull = [[[cTagBoolTrue, cTagBoolFalse, cTagNull], [cTagString, cTagFloat, cTagInteger, cTagUint],
-                  [cTagObjectStart, cTagArrayStart], [256]]] := Facts.set_null_gates
+                  [cTagObjectStart, cTagArrayStart, cTagRoot], [256]]] := Facts.set_null_gates
 
 end SJ.Properties.C13
